@@ -204,13 +204,22 @@ def build_and_run(program, style, mode):
     a, b = Scripted("A", c), Scripted("B", c)
     c.ents = [a, b]
     kw = {}
-    if end_ns is not None:
+    base = 0
+    if len(mode) > 3 and mode[3]:
+        # the horizon given as start_time + duration (float seconds): the documented end is the integer-ns sum
+        start_s, dur_s = mode[3]
+        start = Instant.from_seconds(start_s)
+        kw["start_time"] = start
+        kw["duration"] = dur_s
+        end_ns = start.nanoseconds + int(dur_s * 1_000_000_000)
+        base = end_ns - 1  # program times 0,1,2 straddle the horizon: end-1, end, end+1
+    elif end_ns is not None:
         kw["end_time"] = Instant(end_ns)
 
     def make_events():
         evs = []
         for (t, ti, kind, beh) in program:
-            ev = c.mk(t, c.ents[ti], beh, daemon=(kind == "daemon"))
+            ev = c.mk(base + t, c.ents[ti], beh, daemon=(kind == "daemon"))
             if kind == "cancelled":
                 ev.cancel()
                 c.reg[ev.context["metadata"]["seq"]]["cancel_key"] = (-1, -1)
@@ -472,6 +481,9 @@ def main(tier, seed, only=None):
         fams.append(("p2-crash-2targets", 2, BEH_CRASH, (0, 1, 2), True, ["list", "reversed"], MODES))
         fams.append(("p2-inject-paused", 2, BEH_SMALL, (0, 1, 2), False, ["list"],
                      [(e, True, (k, dt)) for e in (None, 3) for k in (0, 1, 2, 3) for dt in (0, 1)]))
+        fams.append(("p2-duration-horizon", 2, BEH_SMALL, (0, 1, 2), False, ["list"],
+                     [(None, att, None, sd) for att in (False, True)
+                      for sd in ((0.1, 0.7), (0.3, 0.6), (0.0, 0.5), (1.0, 0.1), (0.2, 0.1))]))
         fams.append(("p3-bulk", 3, BEH_BULK, (0, 1), False, ["list"], [(None, False), (3, True)]))
         fams.append(("p3-futures", 3, BEH_FUT, (0, 1), False, ["list"], [(None, False), (None, True), (3, False)]))
     else:
@@ -482,6 +494,9 @@ def main(tier, seed, only=None):
         fams.append(("p2-crash-2targets", 2, BEH_CRASH, (0, 1, 2), True, STYLES, MODES))
         fams.append(("p2-inject-paused", 2, BEH_FULL, (0, 1, 2), False, ["list", "reversed"],
                      [(e, True, (k, dt)) for e in (None, 3) for k in (0, 1, 2, 3, 4) for dt in (0, 1, 2)]))
+        fams.append(("p2-duration-horizon", 2, BEH_FULL, (0, 1, 2), False, ["list", "reversed"],
+                     [(None, att, None, sd) for att in (False, True)
+                      for sd in ((0.1, 0.7), (0.3, 0.6), (0.0, 0.5), (1.0, 0.1), (0.2, 0.1), (0.7, 0.1), (0.1, 0.2))]))
         fams.append(("p3-bulk", 3, BEH_BULK + [("bulk", 31), ("bulk", 33), ("bulkmix", 64)], (0, 1, 2), False, ["list", "reversed"], MODES))
         fams.append(("p3-futures", 3, BEH_FUT, (0, 1, 2), True, ["list", "reversed"], MODES))
     for f in fams:
